@@ -99,9 +99,9 @@ class Session(object):
             _, status = os.waitpid(self.pid, 0)
             self._close()
             return ("died", status)
-        except HarnessError:
+        except HarnessError as exc:
             self.kill()
-            raise
+            raise HarnessError("%s (command %s)" % (exc, repr(cmd)[:400]))
         self.calls += 1
         if kind == "harness_exc":
             raise HarnessError("simulated process harness failed:\n" + payload)
